@@ -83,7 +83,7 @@ UNIT = {
         },
         'FileTimestamp::operator==': {
             'cname': 'FileTimestamp_eq', 'requires': TWO, 'assigns': [],
-            'ensures': [('P:C13', '(RESULT != 0) == (self->seconds == rhs->seconds && self->nanoseconds == rhs->nanoseconds)')],
+            'ensures': [('P:C13,P:C08', '(RESULT != 0) == (self->seconds == rhs->seconds && self->nanoseconds == rhs->nanoseconds)')],
             'inline_in_callers': True},
         'FileChecksum::operator==': {
             'cname': 'FileChecksum_eq', 'requires': TWO, 'assigns': [],
@@ -96,11 +96,11 @@ UNIT = {
         'FileInfo::operator==': {
             'cname': 'FileInfo_eq', 'requires': TWO, 'assigns': [],
             # two observations compare equal exactly when device, inode, size, both time fields and all checksum bytes agree
-            'ensures': [('P:C13', '(RESULT != 0) == (self->device == rhs->device && self->inode == rhs->inode && self->size == rhs->size && '
+            'ensures': [('P:C13,P:C08', '(RESULT != 0) == (self->device == rhs->device && self->inode == rhs->inode && self->size == rhs->size && '
                          'self->modTime.seconds == rhs->modTime.seconds && self->modTime.nanoseconds == rhs->modTime.nanoseconds && %s)' % BYTES_EQ)]},
         'FileInfo::operator!=': {
             'cname': 'FileInfo_ne', 'requires': TWO, 'assigns': [],
-            'ensures': [('P:C13', '(RESULT != 0) == !(self->device == rhs->device && self->inode == rhs->inode && self->size == rhs->size && '
+            'ensures': [('P:C13,P:C08', '(RESULT != 0) == !(self->device == rhs->device && self->inode == rhs->inode && self->size == rhs->size && '
                          'self->modTime.seconds == rhs->modTime.seconds && self->modTime.nanoseconds == rhs->modTime.nanoseconds && %s)' % BYTES_EQ)],
             'replace_unit_callees': False},
         'FileInfo::getInfoForPath': {
